@@ -33,14 +33,20 @@ package packagedeploy
 //@   loop 1 invariant forall k int :: { chunkSl(k) } 0 <= k && k < len(chunks) - 1 ==> chunkOff(k + 1) == chunkOff(k) + len(chunkSl(k))
 //@   loop 1 invariant len(chunks) > 0 ==> chunkOff(0) == 0 && chunkOff(len(chunks) - 1) + len(chunkSl(len(chunks) - 1)) == idx - len(currentChunk)
 //@   loop 1 invariant len(chunks) == 0 ==> len(currentChunk) == idx
-//@   loop 1 invariant forall k int, j int :: { slice_of("package-operator.run/apis/core/v1alpha1.ObjectSetObject", chunkSl(k))[j] } 0 <= k && k < len(chunks) && 0 <= j && j < len(chunkSl(k)) ==> slice_of("package-operator.run/apis/core/v1alpha1.ObjectSetObject", chunkSl(k))[j] == phase.Objects[chunkOff(k) + j]
-//@   loop 1 invariant forall j int :: { currentChunk[j] } 0 <= j && j < len(currentChunk) ==> currentChunk[j] == phase.Objects[idx - len(currentChunk) + j]
+//@   loop 1 invariant forall k int, j int :: { slice_of("package-operator.run/apis/core/v1alpha1.ObjectSetObject", chunkSl(k))[j].Object.Object } 0 <= k && k < len(chunks) && 0 <= j && j < len(chunkSl(k)) ==> slice_of("package-operator.run/apis/core/v1alpha1.ObjectSetObject", chunkSl(k))[j].Object.Object == phase.Objects[chunkOff(k) + j].Object.Object
+//@   loop 1 invariant forall k int, j int :: { slice_of("package-operator.run/apis/core/v1alpha1.ObjectSetObject", chunkSl(k))[j].ConditionMappings } 0 <= k && k < len(chunks) && 0 <= j && j < len(chunkSl(k)) ==> slice_of("package-operator.run/apis/core/v1alpha1.ObjectSetObject", chunkSl(k))[j].ConditionMappings == phase.Objects[chunkOff(k) + j].ConditionMappings
+//@   loop 1 invariant forall k int, j int :: { slice_of("package-operator.run/apis/core/v1alpha1.ObjectSetObject", chunkSl(k))[j].CollisionProtection } 0 <= k && k < len(chunks) && 0 <= j && j < len(chunkSl(k)) ==> slice_of("package-operator.run/apis/core/v1alpha1.ObjectSetObject", chunkSl(k))[j].CollisionProtection == phase.Objects[chunkOff(k) + j].CollisionProtection
+//@   loop 1 invariant forall j int :: { currentChunk[j].Object.Object } 0 <= j && j < len(currentChunk) ==> currentChunk[j].Object.Object == phase.Objects[idx - len(currentChunk) + j].Object.Object
+//@   loop 1 invariant forall j int :: { currentChunk[j].ConditionMappings } 0 <= j && j < len(currentChunk) ==> currentChunk[j].ConditionMappings == phase.Objects[idx - len(currentChunk) + j].ConditionMappings
+//@   loop 1 invariant forall j int :: { currentChunk[j].CollisionProtection } 0 <= j && j < len(currentChunk) ==> currentChunk[j].CollisionProtection == phase.Objects[idx - len(currentChunk) + j].CollisionProtection
 // (nothing that existed before the call is written: phase.Objects below is the list as handed in)
 //@   ensures [C14] gomem_unchanged()
 //@   ensures [C14] result1 == nil && len(result0) > 0 ==> chunkOff(0) == 0 && chunkOff(len(result0) - 1) + len(result0[len(result0) - 1]) == old(len(phase.Objects))
 //@   ensures [C14] result1 == nil && len(result0) > 0 ==> (forall k int :: { result0[k] } 0 <= k && k < len(result0) ==> result0[k] == chunkSl(k))
 //@   ensures [C14] result1 == nil && len(result0) > 0 ==> (forall k int :: { chunkSl(k) } 0 <= k && k < len(result0) - 1 ==> chunkOff(k + 1) == chunkOff(k) + len(chunkSl(k)))
-//@   ensures [C14] result1 == nil && len(result0) > 0 ==> (forall k int, j int :: { slice_of("package-operator.run/apis/core/v1alpha1.ObjectSetObject", chunkSl(k))[j] } 0 <= k && k < len(result0) && 0 <= j && j < len(chunkSl(k)) ==> slice_of("package-operator.run/apis/core/v1alpha1.ObjectSetObject", chunkSl(k))[j] == phase.Objects[chunkOff(k) + j])
+//@   ensures [C14] result1 == nil && len(result0) > 0 ==> (forall k int, j int :: { slice_of("package-operator.run/apis/core/v1alpha1.ObjectSetObject", chunkSl(k))[j].Object.Object } 0 <= k && k < len(result0) && 0 <= j && j < len(chunkSl(k)) ==> slice_of("package-operator.run/apis/core/v1alpha1.ObjectSetObject", chunkSl(k))[j].Object.Object == phase.Objects[chunkOff(k) + j].Object.Object)
+//@   ensures [C14] result1 == nil && len(result0) > 0 ==> (forall k int, j int :: { slice_of("package-operator.run/apis/core/v1alpha1.ObjectSetObject", chunkSl(k))[j].ConditionMappings } 0 <= k && k < len(result0) && 0 <= j && j < len(chunkSl(k)) ==> slice_of("package-operator.run/apis/core/v1alpha1.ObjectSetObject", chunkSl(k))[j].ConditionMappings == phase.Objects[chunkOff(k) + j].ConditionMappings)
+//@   ensures [C14] result1 == nil && len(result0) > 0 ==> (forall k int, j int :: { slice_of("package-operator.run/apis/core/v1alpha1.ObjectSetObject", chunkSl(k))[j].CollisionProtection } 0 <= k && k < len(result0) && 0 <= j && j < len(chunkSl(k)) ==> slice_of("package-operator.run/apis/core/v1alpha1.ObjectSetObject", chunkSl(k))[j].CollisionProtection == phase.Objects[chunkOff(k) + j].CollisionProtection)
 
 //@ func package-operator.run/internal/packages/internal/packagedeploy.(*DeploymentReconciler).reconcileSliceWithCollisionCount
 //@   ghost lastSliceOK() := if result == nil then objid(clientObj(slice)) else old(lastSliceOK())
@@ -67,6 +73,8 @@ package packagedeploy
 //@ func package-operator.run/internal/packages/internal/packagedeploy.(*PackageDeployer).Deploy
 //@   requires [C16] !constraintsFailed()
 //@   sink deploymentReconciler.Reconcile#1 requires [C16] !constraintsFailed()
+// ... and only for a configuration that was admitted against the manifest's schema without violation in this pass
+//@   sink deploymentReconciler.Reconcile#1 requires [C16] admittedErrs() == 0
 
 //@ props C16
 // the ObjectDeployment is created only after a NotFound read, and every update request - also a retried one after a
